@@ -424,6 +424,31 @@ def d_index(site, ctx):
                     if not bad:
                         return ("I-NONEMPTY", "dominated by !%s.is_empty(), vector not shrunk in between" % rc)
             return None
+        # I-GUARD: v[i] on the true side of `i < v.len()` (same index expression, same vector, vector not shrunk in between)
+        rc = canon(strip(recv))
+        for g in dominating_guards(body, tr, site.bb):
+            c = strip(g.cond)
+            lt = None
+            if c[0] == "binop" and c[1] in ("Lt", "Gt", "Ge", "Le"):
+                x, y = c[2], c[3]
+                if c[1] == "Lt":
+                    lt = (x, y, True)
+                elif c[1] == "Gt":
+                    lt = (y, x, True)
+                elif c[1] == "Ge":        # !(i >= len)
+                    lt = (x, y, False)
+                elif c[1] == "Le":        # !(len <= i)
+                    lt = (y, x, False)
+            if lt is None or g.value is not lt[2]:
+                continue
+            i_e, len_e = strip(lt[0]), strip(lt[1])
+            if canon(i_e) != ic or not (len_e[0] == "call" and re.search(r"Vec::<T, A>::len$", len_e[1] or "")) or canon(strip(len_e[3][0])) != rc:
+                continue
+            between = blocks_between(body, g.dst, site.bb)
+            bad = [bb for bb in between if body.term(bb)["k"] == "call" and
+                   is_callee(body.term(bb), r"Vec::<T, A>::(clear|truncate|drain|pop|remove|swap_remove|retain|split_off)$")]
+            if not bad:
+                return ("I-GUARD", "dominated by %s < %s.len(), vector not shrunk in between" % (ic[:60], rc[:60]))
         # I-ENUM: index is the enumerate() index over the same field, carried through a tuple
         if fields_of(strip(recv)):
             f_owner, _v, f_name = fields_of(strip(recv))[-1]
